@@ -143,3 +143,51 @@ Lemma pick_seals_example :
   pick_seals 8 4 [1; 2] = Some [false; true; false; false; false; false; true; true] /\
   pick_seals 0 4 [] = None /\ pick_seals 5 0 [] = None.
 Proof. vm_compute. repeat split; reflexivity. Qed.
+
+(* ValidateHeaderChain consumes exactly ONE result per header, known or not (the engine emits a result for a known header
+   as well: its worker returns nil): with no blacklisted hash the verdict is the first failure of the result stream, at
+   the position of the header it belongs to — in particular results are never skipped for headers already in the chain *)
+Local Open Scope nat_scope.
+Lemma read_results_first_failure hs : forall rs i,
+  length rs = length hs ->
+  read_results (fun _ => false) hs rs i =
+  match first_failure rs i with
+  | None => VOk
+  | Some (j, Err e) => VFail j e
+  | Some (j, _) => VPanic
+  end.
+Proof.
+  induction hs as [|h ht IH]; intros rs i Hl; destruct rs as [|r rt]; try discriminate Hl; cbn [read_results first_failure].
+  - reflexivity.
+  - destruct r as [[]| e |]; try reflexivity. apply IH. cbn in Hl. lia.
+Qed.
+
+Theorem validate_is_first_failure c chain now hs seals :
+  contiguous_b hs = true ->
+  validate_with_seals c chain now hs seals (fun _ => false) =
+  match first_failure (map (verify_worker c chain now hs seals) (seq 0 (length hs))) 0 with
+  | None => VOk
+  | Some (j, Err e) => VFail j e
+  | Some (j, _) => VPanic
+  end.
+Proof.
+  intros Hc. unfold validate_with_seals. rewrite Hc. cbn [negb].
+  apply read_results_first_failure. rewrite map_length, seq_length. reflexivity.
+Qed.
+
+(* a header already known to the chain still has its own slot in the stream: its worker answers Ok *)
+Lemma known_header_worker_ok c chain now hs seals i h p g :
+  nth_error hs i = Some h -> (2 <= i)%nat ->
+  nth_error hs (i - 1) = Some p -> nth_error hs (i - 2) = Some g ->
+  h_parent h = h_hash p ->
+  get_header chain (h_hash h) (big_uint64 (h_number h)) <> None ->
+  verify_worker c chain now hs seals i = Ok tt.
+Proof.
+  intros Hh Hi Hp Hg Hpar Hk. unfold verify_worker. rewrite Hh.
+  destruct i as [|[|k]]; try lia.
+  replace (S (S k) - 1) with (S k) in Hp by lia. replace (S (S k) - 2) with k in Hg by lia.
+  destruct (nth_error hs 0) as [h0|] eqn:E0.
+  2:{ apply nth_error_None in E0. assert (length hs > 0) by (apply (nth_error_Some hs (S (S k))) in Hh || (destruct hs; [destruct k; discriminate | cbn; lia])). lia. }
+  rewrite Hp, Hg, Hpar, bytes_eqb_refl.
+  destruct (get_header chain (h_hash h) (big_uint64 (h_number h))); [reflexivity | contradiction].
+Qed.
